@@ -178,6 +178,22 @@ CHECKS = {
         "scratch HOME; failed module loads may re-run top-level code.",
         "DESIGN.md section 5 C10",
     ),
+    "C11": (
+        "model-based property testing of generated module graphs written to "
+        "disk and importer sessions using every import form, against a "
+        "Python model of the module system",
+        "Random graphs of up to 5 generated user modules (load markers, "
+        "public/private definitions, mutable state, importer-variable probe, "
+        "chains / diamonds / cycles) are imported in fresh interpreters with "
+        "random sequences of require forms; after every step the importer's "
+        "visible names (ls()), the module objects' members, the load markers "
+        "on stdout, shared state through every binding and through "
+        "dependants, the probe failure and cycle errors are compared with "
+        "the model. Both module search configurations are exercised.",
+        "Trusted: the module-system model (load order, cache, cycle "
+        "detection); failed loads are not cached.",
+        "DESIGN.md section 5 C11",
+    ),
     "C12": (
         "differential testing across fresh processes with different "
         "PYTHONHASHSEED values + in-process metamorphic testing (permuted "
